@@ -183,6 +183,26 @@ def check_chain(seq_json, cs, ctx=None):
             fails.append(("chain/input-records-changed", f"{where}: input {recs_to_json(seq_in)} now has records {sorted(map(repr, record_set(c_in)))}"))
     if any(res is c for c in convs):
         fails.append(("chain/returns-one-of-its-inputs", f"{where}: the result is an input object itself"))
+    if cs and models and not fails:
+        # the same chain with the first converter writing CURIEs with another delimiter: the result expands and compresses
+        # what the first converter knows exactly as the first converter does, and chain([c]) is equivalent to c
+        for d2 in ("/", "::"):
+            if any(d2 in p for p in models[0].all_prefixes()):
+                continue
+            first2 = Converter([to_record(r) for r in seqs[0]], delimiter=d2)
+            try:
+                res2 = chain([first2] + [Converter([to_record(r) for r in s_]) for s_ in seqs[1:]], case_sensitive=True)
+            except ValueError:
+                break
+            for r in models[0].records:
+                for p in r.prefixes:
+                    c_ = p + d2 + "1"
+                    if res2.expand(c_) != first2.expand(c_):
+                        fails.append(("chain/first-converter-does-not-win", f"{where} with the first converter using delimiter {d2!r}: expand({c_!r}) = {res2.expand(c_)!r}, the first converter gives {first2.expand(c_)!r}"))
+                if len(seqs) == 1 and res2.compress(r.uri_prefix + "#7") != first2.compress(r.uri_prefix + "#7"):
+                    fails.append(("chain/singleton-chain-not-equivalent", f"{where} with delimiter {d2!r}: compress({r.uri_prefix + '#7'!r}) = {res2.compress(r.uri_prefix + '#7')!r}, the converter itself gives {first2.compress(r.uri_prefix + '#7')!r}"))
+            if fails:
+                break
     if len(seqs) == 1 and cs:
         if record_set(res) != record_set(convs[0]) or observe(res, QS, QP) != observe(convs[0], QS, QP):
             fails.append(("chain/singleton-chain-not-equivalent", f"{where}: chain([c]) differs from c"))
@@ -228,6 +248,23 @@ def check_sub(recs_json, delim_rewrite, P, ctx=None):
             for p in r.prefixes:
                 if sub.expand(p + ":1") is not None or sub.standardize_prefix(p) is not None:
                     fails.append(("sub/answers-on-dropped-record", f"{where}: prefix {p!r} of a dropped record is still known"))
+    if not fails and exp.records:
+        # a parent that writes CURIEs with another delimiter: the restriction answers as the parent does on the kept records
+        for d2 in ("/", "::"):
+            if any(d2 in p_ for p_ in model.all_prefixes()):
+                continue
+            parent2 = Converter([to_record(r) for r in recs], delimiter=d2)
+            sub2 = parent2.get_subconverter(list(P))
+            for r in exp.records:
+                for p_ in r.prefixes:
+                    c_ = p_ + d2 + "1"
+                    if sub2.expand(c_) != parent2.expand(c_):
+                        fails.append(("sub/answers-differ-from-parent-on-kept-record", f"{where} with the parent using delimiter {d2!r}: expand({c_!r}) = {sub2.expand(c_)!r}, the parent gives {parent2.expand(c_)!r}"))
+                u_ = r.uri_prefix + "#7"
+                if sub2.compress(u_) != parent2.compress(u_) and parent2.parse_uri(u_, return_none=True) == sub2.parse_uri(u_, return_none=True):
+                    fails.append(("sub/answers-differ-from-parent-on-kept-record", f"{where} with the parent using delimiter {d2!r}: compress({u_!r}) = {sub2.compress(u_)!r}, the parent gives {parent2.compress(u_)!r}"))
+            if fails:
+                break
     if not fails and recs:
         # restriction follows the parent's *current* records: a synonym gained by a merge after an earlier restriction selects its record
         try:
